@@ -29,7 +29,7 @@ ENGINES = {
               '11': 'release pass', '12': 'release filter', '13': 'release fail', '14': 'release fanout', '15': 'release later (async)',
               '16': 'async completion', '17': 'source ended', '18': 'source failed+restarted', '19': 'waited for Execute',
               '20': 'net has a discarding node', '21': 'net has an error handler', '22': 'net has a multi-worker node',
-              '23': 'net has an async node', '24': 'source failure in free run', '25': 'ended by a real SIGTERM (possibly pending while the main loop is blocked)', '30': 'free run ended clean', '31': 'free run did not end clean'},
+              '23': 'net has an async node', '24': 'source failure in free run', '25': 'ended by a real SIGTERM (possibly pending while the main loop is blocked)', '26': 'Setup of a replacement source fails (child process)', '27': 'the child process ended with status 1', '30': 'free run ended clean', '31': 'free run did not end clean'},
         trusted_base=_TB,
         assumptions=['user nodes honour the node contract: sync/fanout Process returns; an async node calls back exactly once per event and its '
                      'Shutdown returns only after all callbacks returned',
